@@ -545,13 +545,13 @@ func elemSize(t types.Type) int64 {
 // allocation obligations: a negative or huge size panics in Go (implicit
 // obligation); with AllocPolicy, a size above the policy limit that depends on
 // symbolic input is a violation.
-func (in *Interp) makeSize(lenV, capV value, elt types.Type, pos string) (int, int) {
+func (in *Interp) makeSize(lenV, capV value, lenUnsigned bool, elt types.Type, pos string) (int, int) {
 	es := elemSize(elt)
 	conc := func(v value, what string) int64 {
 		t, ok := v.(*Term)
 		if !ok {
 			n := asInt64(v)
-			if n < 0 || n > (1<<47)/es {
+			if n < 0 || n > (1<<48)/es {
 				rtPanic("makeslice: " + what + " out of range")
 			}
 			return n
@@ -559,9 +559,13 @@ func (in *Interp) makeSize(lenV, capV value, elt types.Type, pos string) (int, i
 		// Go panics for len < 0 or len*size > maxAlloc
 		t64 := t
 		if t.sort.W < 64 {
-			t64 = mkSext(t, 64-t.sort.W)
+			if lenUnsigned {
+				t64 = mkZext(t, 64-t.sort.W)
+			} else {
+				t64 = mkSext(t, 64-t.sort.W)
+			}
 		}
-		tooBig := mkNot(mkBvCmp(opBvUle, t64, mkBV(64, uint64((1<<47)/es))))
+		tooBig := mkNot(mkBvCmp(opBvUle, t64, mkBV(64, uint64((1<<48)/es))))
 		if in.branch(tooBig) {
 			rtPanic("makeslice: " + what + " out of range")
 		}
@@ -569,6 +573,17 @@ func (in *Interp) makeSize(lenV, capV value, elt types.Type, pos string) (int, i
 		if in.cfg.AllocPolicy {
 			over := mkNot(mkBvCmp(opBvUle, t64, mkBV(64, uint64(lim))))
 			if in.branch(over) {
+				// report a clearly oversized instance if there is one (the native replay
+				// measures allocated bytes with some slack)
+				big := mkBvCmp(opBvUle, mkBV(64, uint64((64<<20)/es)), t64)
+				sv := in.solver
+				sv.push()
+				sv.assert(big)
+				rb := sv.check()
+				sv.pop(1)
+				if rb == resSat {
+					in.assume(big, false)
+				}
 				in.recordViolation(nil, "alloc", "allocation sized by input: "+pos, fmt.Sprintf("make of more than %d bytes with a size taken from the input (element size %d)", in.allocLimit(), es))
 				abort(abViolation, "alloc policy")
 			}
